@@ -15,7 +15,6 @@
 package bfe_proxy
 
 import (
-	"fmt"
 	"io"
 	"net"
 	"sync"
@@ -192,23 +191,28 @@ func (p *Conn) checkProxyHeader() error {
 		return err
 	}
 
-	// initial real src/dst address
-	srcAddr := net.JoinHostPort(hdr.SourceAddress.String(), fmt.Sprintf("%d", hdr.SourcePort))
-	p.srcAddr, err = net.ResolveTCPAddr(hdr.TransportProtocol.String(), srcAddr)
-	if err != nil {
+	// only TCP over IPv4/IPv6 is supported
+	if hdr.TransportProtocol != TCPv4 && hdr.TransportProtocol != TCPv6 {
 		p.Close()
-		p.headerErr = err
-		return err
+		p.headerErr = ErrUnsupportedAddressFamilyAndProtocol
+		return p.headerErr
 	}
 
-	dstAddr := net.JoinHostPort(hdr.DestinationAddress.String(), fmt.Sprintf("%d", hdr.DestinationPort))
-	p.dstAddr, err = net.ResolveTCPAddr(hdr.TransportProtocol.String(), dstAddr)
-	if err != nil {
-		p.Close()
-		p.srcAddr = nil
-		p.headerErr = err
-		return err
-	}
+	// initial real src/dst address
+	p.srcAddr = newTCPAddr(hdr.TransportProtocol, hdr.SourceAddress, hdr.SourcePort)
+	p.dstAddr = newTCPAddr(hdr.TransportProtocol, hdr.DestinationAddress, hdr.DestinationPort)
 
 	return nil
+}
+
+// newTCPAddr builds the address advertised in proxy header. The address
+// family is the one declared in header (an IPv4-mapped IPv6 address received
+// as TCP6 remains an IPv6 address).
+func newTCPAddr(protocol AddressFamilyAndProtocol, ip net.IP, port uint16) *net.TCPAddr {
+	if protocol.IsIPv4() {
+		ip = ip.To4()
+	} else {
+		ip = ip.To16()
+	}
+	return &net.TCPAddr{IP: ip, Port: int(port)}
 }
